@@ -72,7 +72,7 @@ namespace internal
 
 		ArrayIndexIterator& operator+=(ptrdiff_t diff)
 		{
-			size_t newIndex = static_cast<size_t>(static_cast<ptrdiff_t>(mIndex) + diff);
+			size_t newIndex = mIndex + static_cast<size_t>(diff);
 			MOMO_CHECK((mArray != nullptr) ? newIndex <= mArray->GetCount() : diff == 0);
 			mIndex = newIndex;
 			return *this;
